@@ -708,7 +708,7 @@ func (m *metadataAPI) ReportLeader(ctx context.Context, req *proto.ReportLeaderO
 			partition,
 			m.config.Clustering.ReplicaMaxLeaderTimeout,
 			m.newPartitionFailoverExpiredHandler(partition),
-			m.newPartitionFailoverHandler(partition),
+			m.newPartitionFailoverHandler(partition, leader, epoch),
 		)
 		m.partitionFailovers[partition] = failover
 	}
@@ -729,9 +729,17 @@ func (m *metadataAPI) newPartitionFailoverExpiredHandler(p *partition) failoverE
 	}
 }
 
-func (m *metadataAPI) newPartitionFailoverHandler(p *partition) failoverHandler {
+func (m *metadataAPI) newPartitionFailoverHandler(p *partition, leader string, epoch uint64) failoverHandler {
 	return func(ctx context.Context) *status.Status {
-		st := m.electNewPartitionLeader(ctx, p)
+		// The witnesses reported one generation of the leader. Reports that
+		// passed the generation check before an earlier election was applied
+		// can complete a quorum afterwards: if the leader has changed since,
+		// there is nothing left to fail over (electing again would depose a
+		// leader nobody reported).
+		var st *status.Status
+		if l, e := p.GetLeader(); l == leader && e == epoch {
+			st = m.electNewPartitionLeader(ctx, p)
+		}
 		// The witnesses have been used up for this attempt. Keeping them (the
 		// expiration timer is stopped by now) would let a single report fail
 		// over the next leader, or a leader that is reported again much later.
